@@ -278,7 +278,7 @@ impl World {
     pub fn data_of(&self, q: &crate::queries::Probe) -> (Vec<u8>, corpus::Side) {
         use crate::queries::Probe as Q;
         let name = match q {
-            Q::Binning { data, .. } | Q::Seek { data, .. } | Q::Gzi { data, .. } | Q::Fai { data, .. } | Q::Crai { data, .. } => data,
+            Q::Binning { data, .. } | Q::Seek { data, .. } | Q::Gzi { data, .. } | Q::Fai { data, .. } | Q::Crai { data, .. } | Q::BgzfRead { data, .. } => data,
         };
         if let Some((_, b)) = self.gffgz.iter().find(|(n, _)| n == name) {
             return (b.clone(), corpus::Side::default());
